@@ -8,6 +8,7 @@ func init() {
 	vHarnesses["VerifC05Docs"] = VerifC05Docs
 	vHarnesses["VerifC05Precision"] = VerifC05Precision
 	vHarnesses["VerifC05Nulls"] = VerifC05Nulls
+	vHarnesses["VerifC05Keys2"] = VerifC05Keys2
 }
 
 // VerifC05Nulls: documents with null members / elements under every option set, merge included
@@ -129,4 +130,36 @@ func VerifC05Flat() {
 	vObserve("equals", eq)
 	vAssert((len(d) == 0) == eq, "diff emptiness disagrees with Equals")
 	vCover("c05.flat." + optName(k))
+}
+
+// VerifC05Keys2: arrays of objects under SetKeys("a","b") (two keys; members may lack one of
+// them, values may be exchanged between the keys), with and without SET.
+func VerifC05Keys2() {
+	mk := func() jsonArray {
+		arr := make(jsonArray, vChoice(vParam("N", 1)+1))
+		for i := range arr {
+			o := jsonObject{}
+			for _, k := range []string{"a", "b", "c"} {
+				if vChoice(2) == 1 {
+					o[k] = vNum()
+				}
+			}
+			arr[i] = o
+		}
+		return arr
+	}
+	a, b := mk(), mk()
+	opts := []Option{SetKeys("a", "b")}
+	if vChoice(2) == 1 {
+		opts = []Option{SET, SetKeys("a", "b")}
+	}
+	if vKnown("hash.alias") {
+		vAssumeNoHashAlias(a, b)
+	}
+	d := a.Diff(b, opts...)
+	eq := a.Equals(b, opts...)
+	vObserve("empty", len(d) == 0)
+	vObserve("equals", eq)
+	vAssert((len(d) == 0) == eq, "diff emptiness disagrees with Equals (two set keys)")
+	vCover("c05.keys2")
 }
